@@ -9,7 +9,9 @@ package main
 //    base unlocks on early-return paths inside such blocks and keeps the lock on the fall-through path);
 //  * a lock X.m counts for an access B.f only if X and B are the SAME expression text (x.mu guards x.f, it does not
 //    guard y.f), or if the function is listed in lockAnnotations (caller holds the lock);
-//  * function literals (goroutines, callbacks, deferred closures) start with NO lock held;
+//  * function literals (goroutines, callbacks) start with NO lock held; a literal passed to `defer` starts with the locks
+//    whose `defer X.Unlock()` was registered earlier at the top level of the function (deferred calls run LIFO, so the
+//    closure runs before those unlocks); locks without a deferred unlock are not counted for it;
 //  * sync/atomic calls on &B.f are atomic accesses; everything else is a read, or a write when the selector is
 //    assigned, incremented, indexed-and-assigned, or passed to delete().
 //
@@ -288,13 +290,15 @@ type lsHeld struct {
 type lsAlias struct{ loc, base string }
 
 type lsWalker struct {
-	alias map[string]lsAlias
-	p     *lsPkg
-	fn    string
-	file  string
-	env   map[string]string
-	sites []lsSite
-	err   error
+	depth     int      // block nesting inside the current function (1 = the function's own statement list)
+	deferHeld []lsHeld // locks whose `defer X.Unlock()` has been registered at depth 1 so far: held until the function exits
+	alias     map[string]lsAlias
+	p         *lsPkg
+	fn        string
+	file      string
+	env       map[string]string
+	sites     []lsSite
+	err       error
 }
 
 // elemSource says whether e denotes (an alias of) a tracked slice: X.f[k], an alias variable, or a call of an escaper.
@@ -407,10 +411,20 @@ func (w *lsWalker) apply(held []lsHeld, base, name, op string) []lsHeld {
 }
 
 func (w *lsWalker) block(stmts []ast.Stmt, held []lsHeld) []lsHeld {
+	w.depth++
 	for _, s := range stmts {
 		held = w.stmt(s, held)
 	}
+	w.depth--
 	return held
+}
+
+// funcLit walks the body of a function literal as a function of its own, entered with the given locks.
+func (w *lsWalker) funcLit(body []ast.Stmt, held []lsHeld) {
+	d, dh := w.depth, w.deferHeld
+	w.depth, w.deferHeld = 0, nil
+	w.block(body, held)
+	w.depth, w.deferHeld = d, dh
 }
 
 func (w *lsWalker) stmt(s ast.Stmt, held []lsHeld) []lsHeld {
@@ -423,17 +437,26 @@ func (w *lsWalker) stmt(s ast.Stmt, held []lsHeld) []lsHeld {
 		}
 		w.expr(x.X, held, "R")
 	case *ast.DeferStmt:
-		if _, _, op, ok := w.lockCall(x.Call); ok && (op == "Unlock" || op == "RUnlock") {
+		if b, n, op, ok := w.lockCall(x.Call); ok && (op == "Unlock" || op == "RUnlock") {
+			if w.depth == 1 { // unconditional: the lock is held until the function exits
+				for _, h := range held {
+					if h.base == b && h.name == n {
+						w.deferHeld = append(w.deferHeld, h)
+					}
+				}
+			}
 			return held // released at function exit
 		}
 		if fl, ok := x.Call.Fun.(*ast.FuncLit); ok {
-			w.block(fl.Body.List, nil)
+			// deferred calls run last-in first-out: this closure runs BEFORE every unlock that was deferred earlier,
+			// i.e. with those locks still held (locks without a deferred unlock may be gone by then: not counted)
+			w.funcLit(fl.Body.List, append([]lsHeld{}, w.deferHeld...))
 		} else {
 			w.expr(x.Call, nil, "R")
 		}
 	case *ast.GoStmt:
 		if fl, ok := x.Call.Fun.(*ast.FuncLit); ok {
-			w.block(fl.Body.List, nil)
+			w.funcLit(fl.Body.List, nil)
 		}
 		for _, a := range x.Call.Args {
 			w.expr(a, held, "R")
@@ -687,7 +710,7 @@ func (w *lsWalker) expr(e ast.Expr, held []lsHeld, mode string) {
 			w.expr(a, held, "R")
 		}
 	case *ast.FuncLit:
-		w.block(x.Body.List, nil)
+		w.funcLit(x.Body.List, nil)
 	case *ast.CompositeLit:
 		for _, el := range x.Elts {
 			if kv, ok := el.(*ast.KeyValueExpr); ok {
